@@ -40,6 +40,7 @@ GROUPS = {
     'Arith': dict(kind='translate', flags=RELEASE, names=ARITH, mem=False),
     'Tables': dict(kind='tables', flags=RELEASE),
     'Secure': dict(kind='translate', flags=SECURE, names=SECURE_FNS, namespace='GenS', log_errors=True),
+    'Os': dict(kind='translate', flags=RELEASE, names=['_mi_os_free_ex', '_mi_os_good_alloc_size', '_mi_align_up', 'mi_memkind_is_os', '_mi_os_free'], mem=False, namespace='GenO'),
     'Purge': dict(kind='custom', flags=RELEASE, fn='gen_purge'),
     'Formats': dict(kind='custom', flags=RELEASE, fn='gen_formats'),
     'Entry': dict(kind='translate', flags=RELEASE, names=ENTRY, mem=False, explicit_in=('mi_posix_memalign',), namespace='GenE'),
